@@ -103,7 +103,18 @@ func c08Subset9(r *rand.Rand, xs []string, p float64) []string {
 	return out
 }
 
-// c09GenConfig: K rule blocks, block k carries the marker check `label "marker_k"`.
+// c09Marker: the marker check of block i.  Usually `label "marker_i"` (a String() of its own); with probability 1/4 a
+// later block carries the IDENTICAL check of an earlier block (same String(), same comment): such blocks form a group and
+// the marker problem must be reported iff ANY block of the group applies (GetChecksForEntry enables a check identity once).
+func c09Marker(r *rand.Rand, i int) string {
+	k := i
+	if i > 0 && r.Intn(4) == 0 {
+		k = r.Intn(i)
+	}
+	return fmt.Sprintf("  label \"marker_%d\" {\n    required = true\n    comment = \"k%d\"\n  }\n}\n", k, k)
+}
+
+// c09GenConfig: K rule blocks, block k carries the marker check `label "marker_k"` (or shares an earlier block's).
 func c09GenConfig(r *rand.Rand, k int) string {
 	var b strings.Builder
 	for i := 0; i < k; i++ {
@@ -120,7 +131,7 @@ func c09GenConfig(r *rand.Rand, k int) string {
 		for j := 0; j < ni; j++ {
 			b.WriteString(c09GenBlock(r, "ignore", p))
 		}
-		fmt.Fprintf(&b, "  label \"marker_%d\" {\n    required = true\n    comment = \"k%d\"\n  }\n}\n", i, i)
+		b.WriteString(c09Marker(r, i))
 	}
 	return b.String()
 }
@@ -186,7 +197,7 @@ func c09GenFocusConfig(r *rand.Rand, k int, off int) string {
 		default:
 			b.WriteString("  match {\n" + body + stateLine + "  }\n")
 		}
-		fmt.Fprintf(&b, "  label \"marker_%d\" {\n    required = true\n    comment = \"k%d\"\n  }\n}\n", i, i)
+		b.WriteString(c09Marker(r, i))
 	}
 	return b.String()
 }
@@ -1012,11 +1023,41 @@ func c09Binary(r *rand.Rand, rep *runReport, cwd string, n int) {
 			}
 			e.State = state
 			ev := c09Entry(e)
+			// blocks carrying the identical marker check form a group
+			groupOf := func(rule config.Rule) string {
+				if len(rule.Label) > 0 {
+					return strings.TrimPrefix(rule.Label[0].Key, "marker_")
+				}
+				return "?"
+			}
 			for k, rule := range rr.cfg.Rules {
-				want := c09DocApplies(sc.Cmd, rule.Ignore, rule.Match, ev.subject)
+				g := groupOf(rule)
+				first, size := true, 0
+				want := false
+				for k2, r2 := range rr.cfg.Rules {
+					if groupOf(r2) != g {
+						continue
+					}
+					size++
+					if k2 < k {
+						first = false
+					}
+					if c09DocApplies(sc.Cmd, r2.Ignore, r2.Match, ev.subject) {
+						want = true
+					}
+				}
+				if !first {
+					continue // evaluated with the first block of its group
+				}
+				if size > 1 {
+					rep.hist("marker:identical-check-in-several-blocks")
+					if !c09DocApplies(sc.Cmd, rule.Ignore, rule.Match, ev.subject) && want {
+						rep.hist("marker:selected-by-a-later-block-of-the-group-only")
+					}
+				}
 				got := false
 				for _, p := range rr.run.Problems {
-					if p.Reporter == "rule/label" && p.Path == e.Path.Name && p.Details == fmt.Sprintf("Rule comment: k%d", k) && len(p.Lines) > 0 &&
+					if p.Reporter == "rule/label" && p.Path == e.Path.Name && p.Details == fmt.Sprintf("Rule comment: k%s", g) && len(p.Lines) > 0 &&
 						p.Lines[0] >= e.Rule.Lines.First && p.Lines[len(p.Lines)-1] <= e.Rule.Lines.Last {
 						got = true
 					}
@@ -1028,8 +1069,8 @@ func c09Binary(r *rand.Rand, rep *runReport, cwd string, n int) {
 				rep.hist(fmt.Sprintf("marker:applies=%v", want))
 				c09CondHist(rep, sc.Cmd, rule, ev.subject)
 				if want != got {
-					what := fmt.Sprintf("rule block %d %s applied to rule %q (%s, lines %d-%d): pint=%v, documented semantics=%v",
-						k, sc.Cmd, e.Rule.Name(), e.Path.Name, e.Rule.Lines.First, e.Rule.Lines.Last, got, want)
+					what := fmt.Sprintf("rule block %d (marker group %s, %d block(s)) %s applied to rule %q (%s, lines %d-%d): pint=%v, documented semantics=%v",
+						k, g, size, sc.Cmd, e.Rule.Name(), e.Path.Name, e.Rule.Lines.First, e.Rule.Lines.Last, got, want)
 					d2 := map[string]any{"scenario": sc, "rule": e.Rule.Name(), "path": e.Path.Name, "block": k, "pint": got, "documented": want, "args": rr.run.Args}
 					_ = override // (class of the repaired finding C09-group-label-aliasing: a recurrence is a VIOLATION)
 					rep.fail(key, what, d2)
